@@ -2,6 +2,8 @@ package wasp
 
 import (
 	"context"
+	"fmt"
+	"io"
 	"sync"
 	"time"
 
@@ -135,12 +137,23 @@ func (s *manager) DisconnectClients(ctx context.Context) {
 	}
 }
 
+// safeDecode reads one packet. Malformed input must cost the offending client its connection,
+// not the broker its life: the decoder indexes into buffers whose length the client controls.
+func safeDecode(d *decoder.Sync, r io.Reader) (pkt packet.Packet, err error) {
+	defer func() {
+		if r := recover(); r != nil {
+			pkt, err = nil, fmt.Errorf("malformed packet: %v", r)
+		}
+	}()
+	return d.Decode(r)
+}
+
 func (s *setupWorker) setup(ctx context.Context, m transport.Metadata) error {
 	c := m.Channel
 	c.SetReadDeadline(
 		time.Now().Add(connectTimeout),
 	)
-	firstPkt, err := s.decoder.Decode(c)
+	firstPkt, err := safeDecode(s.decoder, c)
 	if err != nil {
 		return err
 	}
@@ -258,8 +271,8 @@ type timeoutError interface {
 func (s *connectionWorker) processSession(ctx context.Context, session *sessions.Session) bool {
 	c := session.ReadWriter()
 	started := time.Now()
-	pkt, err := s.decoder.Decode(c)
-	if err != nil {
+	pkt, err := safeDecode(s.decoder, c)
+	if err != nil || pkt == nil {
 		return false
 	}
 	defer stats.SessionPacketHandling.With(prometheus.Labels{
